@@ -425,8 +425,10 @@ Qed.
    struct over the field list of an original struct ---- *)
 Definition ri_origs (s : schema) : list object := map snd (s_objects s).
 Definition ri_F0 (s : schema) (fs : list field) : Prop := exists o a dh, In o (ri_origs s) /\ o_type o = TStruct a dh fs.
+Definition ri_S0 (s : schema) (dh : list (string * disj_ ty)) (fs : list field) : Prop :=
+  exists o a, In o (ri_origs s) /\ o_type o = TStruct a dh fs.
 Definition ri_good (s : schema) (o : object) : Prop :=
-  In o (ri_origs s) \/ exists o0 a dh fs, In o0 (ri_origs s) /\ o = set_otype o0 (TStruct a dh fs) /\ ri_F0 s fs.
+  In o (ri_origs s) \/ exists o0 a dh fs, In o0 (ri_origs s) /\ o = set_otype o0 (TStruct a dh fs) /\ ri_S0 s dh fs.
 
 Lemma ri_get_in objs k v : ri_get objs k = Some v -> exists k', In (k', v) objs.
 Proof.
@@ -447,12 +449,14 @@ Proof.
   induction l as [|[k0 o0] r IH]; intros j k o i H; [contradiction|]. simpl in H.
   destruct H as [H|H]; [inversion H; subst; left; reflexivity|right; eapply IH; eassumption].
 Qed.
-Lemma ri_good_fields s o a dh fs : ri_good s o -> o_type o = TStruct a dh fs -> ri_F0 s fs.
+Lemma ri_good_struct s o a dh fs : ri_good s o -> o_type o = TStruct a dh fs -> ri_S0 s dh fs.
 Proof.
   intros [Hin|[o0 [a0 [dh0 [fs0 [Hin [E HF]]]]]]] Ht.
-  - exists o, a, dh. split; assumption.
+  - exists o, a. split; assumption.
   - subst o. simpl in Ht. inversion Ht; subst. assumption.
 Qed.
+Lemma ri_good_fields s o a dh fs : ri_good s o -> o_type o = TStruct a dh fs -> ri_F0 s fs.
+Proof. intros Hg Ht. destruct (ri_good_struct _ _ _ _ _ Hg Ht) as [o2 [a2 [H1 H2]]]. exists o2, a2, dh. split; assumption. Qed.
 Lemma str_alist_set_has {V} (l : list (string * V)) k v n : alist_has l n = true -> alist_has (str_alist_set l k v) n = true.
 Proof.
   unfold alist_has. induction l as [|[k' v'] r IH]; simpl; intros H; [discriminate|].
@@ -494,7 +498,7 @@ Proof.
         assert (In o (ri_origs s)) as Horig.
         { destruct Go as [Hx|[o0 [a0 [dh0 [fs0 [_ [E0 _]]]]]]]; [assumption|]. subst o. simpl in Et. discriminate. }
         exists o. eexists. eexists. eexists. split; [assumption|split; [reflexivity|]].
-        eapply ri_good_fields; eassumption.
+        eapply ri_good_struct; eassumption.
 Qed.
 
 Lemma ri_number_good s : forall k o id, In (k, (o, id)) (ri_number (s_objects s) 0) -> ri_good s o.
